@@ -686,4 +686,207 @@ theorem calm_receiver_connected (hd : DistinctAddrs ids) (data : Bytes) (c c' : 
           exact k5
 
 end
+/-! ### the indirect path: a ForwardedAck from a member that was asked -/
+
+/-- the probe is exactly this -/
+def ProbeIs (p : Probe) (s : State) (_ : List Effect) : Prop := s.probe = p
+
+section
+variable (E : Env) (p : Probe)
+
+theorem ProbeIs.modS_of {f : State → State} (h : ∀ s, (f s).probe = s.probe) : PresC (ProbeIs p) (Foca.modS f) :=
+  ⟨fun c hc => by simp only [modS_run]; unfold ProbeIs at *; rw [h]; exact hc⟩
+
+theorem ProbeIs.customLoop (sender : Option Id) (fuel : Nat) (data : Bytes) :
+    PresC (ProbeIs p) (Foca.customLoop E sender fuel data) := by
+  induction fuel generalizing data with
+  | zero => unfold Foca.customLoop; exact PresC.throwE _
+  | succ f ih =>
+    unfold Foca.customLoop
+    presc
+    all_goals first
+      | exact ProbeIs.modS_of p (fun _ => rfl)
+      | exact ih _
+
+theorem ProbeIs.handleCustomBroadcasts (data : Bytes) (sender : Option Id) :
+    PresC (ProbeIs p) (Foca.handleCustomBroadcasts E data sender) := by
+  unfold Foca.handleCustomBroadcasts
+  presc
+  exact ProbeIs.customLoop E p _ _ _
+
+theorem ProbeIs.applyUpdate (u : Member) (b : Bool) : PresC (ProbeIs p) (Foca.applyUpdate E u b) :=
+  PresC.of_core (Q := fun s => s.probe = p) (fun s s' _ _ _ _ h5 h => by rw [h5]; exact h)
+    (fun _ _ _ _ _ => CoreIs.applyUpdate E u b)
+
+theorem ProbeIs.applyOne (u : Member) (b : Bool) (hu : u.st = .alive) : PresC (ProbeIs p) (Foca.applyOne E u b) := by
+  unfold Foca.applyOne
+  rw [hu]
+  presc
+  all_goals first
+    | exact ProbeIs.applyUpdate E p _ _
+    | (unfold Foca.handleSelfUpdate; exact PresC.pure _)
+
+theorem ProbeIs.applyLoop (b : Bool) (us : List Member) (hus : ∀ u ∈ us, u.st = .alive) :
+    PresC (ProbeIs p) (Foca.applyLoop E b us) := by
+  induction us with
+  | nil => unfold Foca.applyLoop; exact PresC.pure _
+  | cons u rest ih =>
+    unfold Foca.applyLoop
+    exact PresC.bind (ProbeIs.applyOne E p u b (hus u (by simp))) (fun _ => ih (fun x hx => hus x (by simp [hx])))
+
+theorem connTail_probe (s : State) : PresC (ProbeIs p) (connTail s) := by
+  unfold connTail
+  presc
+  all_goals exact ⟨fun _ hc => hc⟩
+
+end
+
+section
+variable (E : Env)
+
+/-- `adjust_connection_state` of an instance that lists an active member leaves the probe alone -/
+theorem adjust_keeps_probe (c c' : Ctx) (hact : 0 < c.s.numActive)
+    (h : Foca.adjustConnectionState E c = .ok () c') : c'.s.probe = c.s.probe := by
+  unfold Foca.adjustConnectionState at h
+  simp only [bind_run, getS_run] at h
+  cases hcn : c.s.conn with
+  | undead => rw [hcn] at h; simp only [pure_run, R.ok.injEq, true_and] at h; rw [← h]
+  | connected =>
+    rw [hcn] at h
+    have : (c.s.numActive == 0) = false := by simp; omega
+    simp only [this, Bool.false_eq_true, ↓reduceIte, pure_run, R.ok.injEq, true_and] at h
+    rw [← h]
+  | disconnected =>
+    rw [hcn] at h
+    simp only [hact, ↓reduceIte] at h
+    rw [becomeConnected_eq] at h
+    simp only [bind_run, getS_run] at h
+    by_cases hdbg : (E.debug && c.s.numActive == 0) = true
+    · simp [hdbg, panicAt] at h
+    · simp only [hdbg, Bool.false_eq_true, ↓reduceIte] at h
+      rw [bind_run, modS_run] at h
+      simp only [] at h
+      have key := (connTail_probe c.s.probe c.s).run { c with s := { c.s with conn := .connected } } rfl
+      rw [h] at key
+      exact key
+
+end
+
+section
+variable (E : Env) (τ : Id → Nat) (ids : List Id) (K : Msg → Prop)
+
+/-- **The context in which the reply table runs**, for a calm receiver that is not defunct: connected, and with the
+    probe exactly as it was when the call began. -/
+theorem calm_reply_context (hd : DistinctAddrs ids) (data : Bytes) (c c' : Ctx)
+    (hc : CalmSent E τ ids K c.s c.eff) (hms : MsInv c.s) (hnu : c.s.conn ≠ .undead)
+    (hdat : DataOk E (CalmM τ ids) (CalmH τ ids) data)
+    (hrun : Foca.handleData E data c = .ok () c') (h : Header) (rest : Bytes)
+    (hdec : E.codec.decHeader data = some (h, rest)) (hdst : h.dst = c.s.id) :
+    ∃ cres c3, Foca.replyStage E h cres c3 = .ok () c' ∧ c3.s.conn = .connected ∧ c3.s.probe = c.s.probe := by
+  obtain ⟨h', rest', hdec', hcase⟩ := handleData_ok E data c c' hrun
+  rw [hdec] at hdec'
+  simp only [Option.some.injEq, Prod.mk.injEq] at hdec'
+  obtain ⟨rfl, rfl⟩ := hdec'
+  rcases hcase with ⟨hacc, _⟩ | ⟨updates, tail, hparse, act, c1, hu, hcase⟩
+  · exfalso
+    simp [Gen.acceptPayload, hdst] at hacc
+  · obtain ⟨hh, hmem⟩ := hdat h rest hdec
+    have h1 := (CalmP.applyUpdate E τ ids K hd ⟨h.src, h.srcInc, .alive⟩ true hh.sender).run c hc
+    rw [hu] at h1
+    simp only at h1
+    obtain ⟨hc1, hact⟩ := h1
+    rcases hcase with ⟨hf, _⟩ | ⟨_, c2, cres, c3, hm, hcb, hrs⟩
+    · rw [hact] at hf; cases hf
+    · -- after the sender's header: same connection state, exact bookkeeping, a non-empty list
+      have k1 := (ConnIs.applyUpdate E c.s.conn ⟨h.src, h.srcInc, .alive⟩ true).run c rfl
+      rw [hu] at k1
+      simp only [ConnIs] at k1
+      have p1 := (ProbeIs.applyUpdate E c.s.probe ⟨h.src, h.srcInc, .alive⟩ true).run c rfl
+      rw [hu] at p1
+      simp only [ProbeIs] at p1
+      have m1 := ((MsInv.leaves E).base.applyUpdate ⟨h.src, h.srcInc, .alive⟩ true trivial).run c hms
+      rw [hu] at m1
+      simp only at m1
+      have n1 := applyUpdate_nonempty E _ _ c c1 act hu
+      -- the update loop
+      have hus := hmem updates tail hparse
+      unfold Foca.applyMany at hm
+      simp only [bind_run] at hm
+      cases hl : Foca.applyLoop E true updates c1 with
+      | stuck x => rw [hl] at hm; simp at hm
+      | err e c1' => rw [hl] at hm; simp at hm
+      | ok ul c1' =>
+        rw [hl] at hm
+        simp only at hm
+        have k2 := (ConnIs.applyLoop E c1.s.conn true updates (fun u hu' => (hus u hu').2.1)).run c1 rfl
+        rw [hl] at k2
+        simp only [ConnIs] at k2
+        have p2 := (ProbeIs.applyLoop E c1.s.probe true updates (fun u hu' => (hus u hu').2.1)).run c1 rfl
+        rw [hl] at p2
+        simp only [ProbeIs] at p2
+        have m2 := ((MsInv.leaves E).full.applyLoop true updates (fun _ _ => trivial)).run c1 m1
+        rw [hl] at m2
+        simp only at m2
+        have c2' := (CalmP.applyLoop E τ ids K hd true updates hus).run c1 hc1
+        rw [hl] at c2'
+        simp only at c2'
+        have n2 : c1'.s.ms ≠ [] := by
+          cases hms1 : c1.s.ms with
+          | nil => exact absurd hms1 n1
+          | cons m0 rest0 =>
+            have g1 : GenInv m0.id.addr 0 c1.s := ⟨m0, by rw [hms1]; simp, rfl, Nat.zero_le _⟩
+            have g2 := ((GenInv.full (E := E) (a := m0.id.addr) (g := 0)).applyLoop true updates (fun _ _ => trivial)).run c1 g1
+            rw [hl] at g2
+            simp only at g2
+            obtain ⟨r, hr, _⟩ := g2
+            intro hnil
+            rw [hnil] at hr
+            simp at hr
+        have hact' : 0 < c1'.s.numActive := by
+          rw [m2.2, countActive_all _ (fun m hm' => alive_active ((c2'.1.2.2.1 m hm').2.1))]
+          exact List.length_pos_iff.2 n2
+        have k3 := adjust_connects E c1' c2 (by rw [k2, k1]; exact hnu) hact' hm
+        have p3 := adjust_keeps_probe E c1' c2 hact' hm
+        -- custom broadcasts, reply stage
+        have k4 := (PresC.attempt (ConnIs.handleCustomBroadcasts E .connected tail (some h.src))).run c2 k3
+        rw [hcb] at k4
+        simp only [ConnIs] at k4
+        have p4 := (PresC.attempt (ProbeIs.handleCustomBroadcasts E c2.s.probe tail (some h.src))).run c2 rfl
+        rw [hcb] at p4
+        simp only [ProbeIs] at p4
+        exact ⟨cres, c3, hrs, k4, by rw [p4, p3, p2, p1]⟩
+
+/-- **A ForwardedAck from a member that was asked answers the round.** A calm instance that is not defunct handles —
+    successfully — a ForwardedAck numbered `n` from a member it asked to probe indirectly in the current round
+    (`h.src ∈ probe.indirect`: asked and not counted yet) while the probe number is `n`: the round counts as answered. -/
+theorem forwarded_ack_answers_round (hd : DistinctAddrs ids) (data : Bytes) (c c' : Ctx)
+    (hc : CalmSent E τ ids K c.s c.eff) (hms : MsInv c.s) (hnu : c.s.conn ≠ .undead)
+    (hdat : DataOk E (CalmM τ ids) (CalmH τ ids) data)
+    (hrun : Foca.handleData E data c = .ok () c') (h : Header) (rest : Bytes)
+    (hdec : E.codec.decHeader data = some (h, rest)) (hdst : h.dst = c.s.id) (o : Id) (n : Nat)
+    (hmsg : h.msg = .forwardedAck o n) (hnum : c.s.probe.number = n) (hasked : h.src ∈ c.s.probe.indirect) :
+    c'.s.probe.succeeded = true := by
+  obtain ⟨cres, c3, hrs, hcn, hpr⟩ := calm_reply_context E τ ids K hd data c c' hc hms hnu hdat hrun h rest hdec hdst
+  rcases replyStage_ok E h cres c3 c' hrs with ⟨hncn, _⟩ | ⟨_, hreact⟩
+  · exact absurd hcn hncn
+  · unfold Foca.reactToMessage at hreact
+    simp only [bind_run, getS_run, hmsg] at hreact
+    by_cases ho : (o == c3.s.id) = true
+    · simp [ho, throwE] at hreact
+    · simp only [ho, Bool.false_eq_true, ↓reduceIte, modS_run, R.ok.injEq, true_and] at hreact
+      rw [← hreact]
+      simp only
+      rw [hpr]
+      unfold Probe.receiveIndirectAck
+      have h1 : (c.s.probe.number != n) = false := by simp [hnum]
+      simp only [h1, Bool.false_eq_true, ↓reduceIte]
+      cases hf : c.s.probe.indirect.findIdx? (· == h.src) with
+      | none =>
+        exfalso
+        rw [List.findIdx?_eq_none_iff] at hf
+        have := hf h.src hasked
+        simp at this
+      | some pos => simp [Probe.succeeded, Gen.probeSucceeded]
+
+end
 end Foca
